@@ -16,7 +16,10 @@ B3  (primary) on paths of meshTopologyExampleV2, the Sweden OpenROADM networks a
     boundary) / min_spacing / offsets straddle them, runs the real
     compute_path_with_disjunction with and without a fixed mode, bidirectional or not, records every recomputation of
     the receiver figures, and Trace_Feasibility judges verdict, selection, composition law, penalty law and
-    independence from the exploration history against the per-mode pristine figures.
+    independence from the exploration history against the per-mode pristine figures.  Libraries defining several
+    equalization offsets for ONE baud rate (the higher offset on the lower bit rate) are judged on every mode whose side of
+    the threshold does not depend on the offset applied (FeasibilityOps.UnderOffsets); the add/drop OSNR of a carrier is
+    read from the configured frequency ranges of the ROADM profile as listed - overlapping, first listed wins.
 """
 import concurrent.futures as cf
 import inspect
@@ -41,7 +44,7 @@ TAGS = ['ProfileZero', 'OtherRoute', 'SameRoute', 'MixedSpectrum', 'MixedFlags',
 
 TIER = {
     # b2: (# two-mode libraries sampled, # three-mode libraries sampled, paths); b3: scenarios per pair, pairs
-    'quick': dict(b2_two=180, b2_three=240, b2_paths=1, b3_per_pair=22, b3_pairs='quick'),
+    'quick': dict(b2_two=180, b2_three=240, b2_paths=1, b3_per_pair=23, b3_pairs='quick'),
     'thorough': dict(b2_two=1176, b2_three=4000, b2_paths=3, b3_per_pair=64, b3_pairs='thorough'),
 }
 
@@ -253,7 +256,7 @@ def measured_tables(meas):
 
 
 def physical_library(kind, spacing, meas, rng, listing='asc'):
-    """modes without thresholds.  Equalisation offset is a function of the baud rate (domain restriction).
+    """modes without thresholds.  Equalisation offset is a function of the baud rate, except in 'offsetmix'.
     listing: order in which the points of the penalty tables are written in the file"""
     def penalties_json(**kw):                       # every table of this library is written in the chosen order
         return fu.penalties_json(listing=listing, rng=rng, **kw)
@@ -270,6 +273,12 @@ def physical_library(kind, spacing, meas, rng, listing='asc'):
                 base_mode('48G-300', 48e9, 300e9, 62.5e9, tx_osnr=39.0, offset=1.0, penalties=wide('flat')),
                 base_mode('48G-250', 48e9, 250e9, 62.5e9, tx_osnr=41.0, offset=1.0),
                 base_mode('32G-100', 32e9, 100e9, 37.5e9, tx_osnr=44.0, penalties=wide('neg'))]
+    if kind == 'offsetmix':       # ONE baud rate, several offsets: the higher offset on the LOWER bit rate (64 GBd) / on
+        #                           the higher bit rate (32 GBd).  The rule speaks of the modes whatever their offsets
+        return [base_mode('64G-400', 64e9, 400e9, hi, tx_osnr=36.0, penalties=wide()),
+                base_mode('64G-300', 64e9, 300e9, hi, tx_osnr=38.5, offset=1.0, penalties=wide('neg')),
+                base_mode('32G-200', 32e9, 200e9, 50e9, tx_osnr=41.0, offset=0.5, penalties=wide('flat')),
+                base_mode('32G-100', 32e9, 100e9, 37.5e9, tx_osnr=45.0)]
     if kind == 'closebr':         # two baud rates less than 5 GBd apart, the lower one carrying the higher bit rate
         return [base_mode('63G-400', 63.1e9, 400e9, hi, tx_osnr=37.0, penalties=wide()),
                 base_mode('66G-300', 66e9, 300e9, hi, tx_osnr=39.0, penalties=wide('flat')),
@@ -370,11 +379,11 @@ def scenario_traces(bench, name, src, dst, spacing, modes_json, fixed, flags, ma
         path = bench.path(src, dst, spacing, via)
         tmodes = []
         events = []
-        raw = dict(pristine={}, loop=[])
+        raw = dict(pristine={}, loop=[], others={})
         for k, (mj, m) in enumerate(zip(modes_json, loaded), start=1):
             fits = float(mj['min_spacing']) <= spacing
             tm = dict(br=int(round(mj['baud_rate'] / 1e6)), rate=int(round(mj['bit_rate'] / 1e6)), fits=int(fits),
-                      osnr=udb(mj['OSNR']), tx=fu.inv9(mj['tx_osnr']), pf=fu.NOT_RUN, pr=fu.NOT_RUN)
+                      osnr=udb(mj['OSNR']), tx=fu.inv9(mj['tx_osnr']), pf=fu.NOT_RUN, pr=fu.NOT_RUN, po=[])
             for imp, short in fu.SHORT.items():
                 tm[short] = fu.points_int(mj.get('penalties'), imp)      # as written in the file, not as loaded
             if fits and (not spectrum or k == fixed):
@@ -382,6 +391,16 @@ def scenario_traces(bench, name, src, dst, spacing, modes_json, fixed, flags, ma
                 raw['pristine'][(k, 0)] = pf
                 tm['pf'] = fu.project_eval(pf, k, 0, 0)
                 events.append(dict(kind=0, mode=k, dir=0))
+                # the same mode propagated alone under every OTHER offset the library defines for its baud rate (fitting
+                # modes): the automatic selection propagates a baud rate once per offset (FeasibilityOps.UnderOffsets)
+                if not fixed:
+                    own = mj.get('equalization_offset_db', 0)
+                    others = sorted({o.get('equalization_offset_db', 0) for o in modes_json
+                                     if o['baud_rate'] == mj['baud_rate'] and float(o['min_spacing']) <= spacing} - {own})
+                    alts = [bench.pristine(src, dst, 0, spacing, dict(mj, equalization_offset_db=o), via, spectrum)
+                            for o in others]
+                    raw['others'][k] = alts
+                    tm['po'] = [fu.project_eval(q, k, 0, 0) for q in alts]
                 if bidir and k in (fixed, sel):
                     pr = bench.pristine(src, dst, 1, spacing, mj, via, spectrum)
                     raw['pristine'][(k, 1)] = pr
@@ -442,10 +461,11 @@ def deviations(tr, raw, acc):
         if e['kind'] == 0:
             e = tr['modes'][e['mode'] - 1]['pf' if e['dir'] == 0 else 'pr']
         m = tr['modes'][e['mode'] - 1]
-        adds = sum(fu.stage_inv(st) for st in (tr['stf'] if e['dir'] == 0 else tr['str']))
+        sts = tr['stf'] if e['dir'] == 0 else tr['str']
         txs = tr['txc'] if tr['txc'] else [m['tx']] * len(e['rx'])
         acc['composition'] = max(acc['composition'],
-                                 max(abs(rx - ln - tx - adds) for rx, ln, tx in zip(e['rx'], e['line'], txs)))
+                                 max(abs(rx - ln - tx - sum(fu.stage_inv(st, f) for st in sts))
+                                     for rx, ln, tx, f in zip(e['rx'], e['line'], txs, e['freq'])))
         acc['max_nup'] = max(acc['max_nup'], e['nup'])
         for short in ('cd', 'pmd', 'pdl'):
             for v, obs in zip(e[short], e['p' + short]):
@@ -455,8 +475,9 @@ def deviations(tr, raw, acc):
     worst = 0.0
     for k, d, ev in raw['loop']:
         p = raw['pristine'].get((k, d))
-        if p is not None and len(p['rx']) == len(ev['rx']):
-            worst = max(worst, float(np.max(np.abs(p['rx'] - ev['rx']))))
+        if p is not None and len(p['rx']) == len(ev['rx']):     # the closest of the pristine figures under the offsets
+            worst = max(worst, min(float(np.max(np.abs(q['rx'] - ev['rx'])))     # defined for the mode's baud rate
+                                   for q in [p] + (raw['others'].get(k, []) if d == 0 else [])))
     return worst
 
 
@@ -474,6 +495,9 @@ def build_b3(chk, benches):
     #   through requests_aggregation like every batch); 'spec-good-first' / 'spec-bad-first': one fixed-mode request
     #   carrying a user-defined spectrum whose partitions have different transmitter OSNR
     plans = [(k, None, None, None, None) for k in kinds]
+    # one baud rate with several offsets, automatic selection: far enough from the thresholds for the side of every mode
+    # not to depend on the offset applied (whether it does is the specification's call: FeasibilityOps.OffsetRobust)
+    plans += [('offsetmix', False, False, 'fwd', None)]
     plans += [('plain', True, True, 'fwdpass', 'flags-TF'), ('plain', True, True, 'fwdpass', 'flags-FT'),
               ('plain', True, False, 'fwd', 'spec-good-first'), ('cdsteep', True, True, 'fwd', 'spec-bad-first')]
     plans += [('cdpartial', 2, False, 'fwd', None)]      # fixed mode 2: SOME forward channels leave the table
@@ -490,7 +514,7 @@ def build_b3(chk, benches):
         pair_plans = [pl for pl in plans if alts or pl[4] not in ('alt-first', 'alt-second')]   # needs another route
         for si in range(cfg['b3_per_pair']):
             kind, p_fixed, p_bidir, p_ref, p_batch = pair_plans[si] if si < len(pair_plans) else \
-                (rng.choice(kinds), None, None, None, None)
+                (rng.choice(kinds + ['offsetmix']), None, None, None, None)
             spacing = 75e9 if kind != 'nofit' else rng.choice([75e9, 50e9, 25e9])
             # order in which the penalty points are written: ascending on the first pass over the kinds, then any
             listing = 'desc' if kind == 'listing' else 'asc' if si < len(kinds) else \
@@ -522,6 +546,8 @@ def build_b3(chk, benches):
                 bidir, reference = p_bidir, p_ref
                 if pattern in (0, 2):
                     deltas = [rng.choice(DELTAS) for _ in range(n)]
+            if kind == 'offsetmix':     # 1 dB away from every threshold; the first time everything is feasible
+                deltas = [1.0] * n if p_bidir is not None else [rng.choice([-1.0, 1.0]) for _ in range(n)]
             if p_batch is None and p_bidir is None and bidir and alts and rng.random() < 0.2:
                 p_batch = rng.choice(['alt-first', 'alt-second', 'same'])
             vias, flags, spectrum, only = ((),), (bidir,), None, None
@@ -583,6 +609,7 @@ def judge_b3(chk, traces, meta, futures):
     verdicts = {v['name']: v for v in emitted}
     ok = 0
     hist_ok = hist_bad = 0.0
+    mixed = [0, 0]          # automatic requests on a library with several offsets for one baud rate: all, fully judged
     for t in traces:
         v = verdicts.get(t['name'])
         m = meta[t['name']]
@@ -596,6 +623,9 @@ def judge_b3(chk, traces, meta, futures):
             raise Machinery(f'trace {t["name"]}: a selected ROADM profile is not listed for the type / kind')
         if 'TableWellFormed' in clauses:
             raise Machinery(f'trace {t["name"]}: a constructed penalty table violates the integer-interpolation bound')
+        if m['kind'] == 'offsetmix' and not m['fixed']:
+            mixed[0] += 1
+            mixed[1] += not v['offdep']
         if not clauses:
             ok += 1
             hist_ok = max(hist_ok, m['history_deviation_db'])
@@ -613,6 +643,11 @@ def judge_b3(chk, traces, meta, futures):
                 sig = f'B3|{c}|{req_kind}'
             steps = [s for s, cc in v['viol'] if cc == c]
             chk.violation(sig, dict(trace=t['name'], clause=c, steps=steps, scenario=m))
+    if mixed[0] and not mixed[1]:
+        raise Machinery('vacuity: on every library with several offsets for one baud rate some mode changes side with the '
+                        'offset applied (nothing judged): move the thresholds further away')
+    chk.cov['b3_auto_traces_several_offsets_for_one_baud_rate'] = mixed[0]
+    chk.cov['b3_auto_traces_several_offsets_every_mode_judged'] = mixed[1]
     chk.cov['tolerance_history_udb'] = 200
     chk.cov['history_deviation_note'] = ('figures are bit-identical (0 udb on all traces) once the exploration works on a '
                                          'fresh copy per baud-rate group; non-zero values below are instances of the reported '
@@ -657,9 +692,16 @@ def make_benches(tier):
                               dict(from_degree=ins[0], to_degree='trx Brest_KLA', impairment_id=2)]
     ins, outs = degrees('Vannes_KBE')
     sel['roadm Vannes_KBE'] = [dict(from_degree=i, to_degree='trx Vannes_KBE', impairment_id=1) for i in ins]
+    # the profiles list OVERLAPPING frequency ranges (a carrier takes the first listed range containing it): a narrow
+    # poor range listed BEFORE the range covering the band (add 3), the covering range before a narrow one that is
+    # therefore never applied (drop 1), two half bands sharing their middle (add 0), a range without OSNR first (drop 2)
+    lo, hi = fu.BAND['lower-frequency'], fu.BAND['upper-frequency']
     b['prof'] = Bench('prof', 'eqpt_config.json', 'meshTopologyExampleV2.json', per_degree=sel,
-                      roadm_profiles=fu.osnr_profiles([(3, 'add', 41.0), (1, 'drop', 40.0), (0, 'add', 30.0),
-                                                       (2, 'drop', 27.0)]))
+                      roadm_profiles=fu.osnr_profiles([
+                          (3, 'add', [(lo, 192.6123e12, 35.0), (lo, hi, 41.0)]),
+                          (1, 'drop', [(lo, hi, 40.0), (194.0123e12, 195.2123e12, 31.0)]),
+                          (0, 'add', [(lo, 194.5123e12, 30.0), (193.1123e12, hi, 33.0)]),
+                          (2, 'drop', [(192.0123e12, 193.0123e12, None), (lo, hi, 27.0)])]))
     if tier == 'thorough':
         b['meshdet'] = Bench('meshdet', 'eqpt_config.json', 'meshTopologyExampleV2.json',
                              detailed_sites=('roadm Lannion_CAS', 'roadm Brest_KLA', 'roadm Vannes_KBE'))
@@ -694,8 +736,10 @@ def run(chk):
                     modes=[{k: m[k] for k in ('br', 'rate', 'fits', 'osnr', 'tx')} for m in t['modes']],
                     loop=[dict(mode=e['mode'], dir=e['dir'], nup=e['nup'], worst_rxdb=min(e['rxdb']))
                           for e in t['ev'] if e['kind'] == 1]))
-    chk.assume('the equalisation offset is a function of the baud rate within one transceiver (otherwise the code '
-               'explores a baud rate once per offset and the property text does not arbitrate)')
+    chk.assume('several equalisation offsets for one baud rate within one transceiver: the code propagates the baud rate '
+               'once per offset, so a mode may be looked at under the offset of another mode; a mode whose side of the '
+               'threshold differs between its own offset and another offset defined for its baud rate is not judged '
+               '(FeasibilityOps.UnderOffsets); the figures seen for a mode must be pristine ones under one of these offsets')
     chk.assume('mode roll-off equals SI roll-off (the automatic-mode loop propagates with the SI roll-off, as its TODO says)')
     chk.assume('a metric within +/-0.0051 dB of OSNR + margin is not judged (round(x, 2) vs ">" / ">=")')
     chk.assume('bidirectional automatic requests: the mode is selected on the forward direction; the reverse direction '
